@@ -14,4 +14,11 @@ let () = iter_lines (fun line ->
   | ["penv"; s] ->
       (match parse_cookie_environ (nlist_of_csv s) with
        | EOk l -> "ok " ^ pairs l | EUnicodeError -> "unicode-error" | EUnsupported -> "unsupported" | EOutOfFuel -> "fuel")
+  | ["jar"; s] ->
+      (* the implementation calls parse_cookie(first piece) first and fails with StopIteration when it yields nothing *)
+      let h = nlist_of_csv s in
+      (match jar_decoded h with
+       | JNone -> "no-cookie"
+       | JUnsupported -> "unsupported"
+       | JOk -> "ok " ^ csv_of_nlist (jar_request_header h))
   | _ -> "bad-command")
